@@ -388,7 +388,7 @@ fn run_contest_family(rep: &Report, tier: Tier) -> (u64, u64, u64, u64) {
 pub fn run(tier: Tier) -> Report {
     let rep = Report::new("C12", tier);
     let ls = Arc::new(lists());
-    rep.set_rule("every call history of depth <= D (quick 4 for VisualSort, thorough 4 on the full grid; VisualSort; BatchVisualSort one level shallower on a sub-grid) over 13 detection lists (same look, look-alike, half-way look, swapped appearances, no feature, low quality, small box, mutual occlusion, far-away look-alike, empty) x option grid {Euclidean(.5) / cosine(.9); plus cosine(.2) configurations} x {IoU, Mahalanobis} x min votes {1,2} x minimal track length {1,2} x max observations {2,3} x use/collect quality {(0,.6),(.5,.3)} x minimal area {0,150} x own-area share use/collect {(0,0),(.5,.2)} plus each threshold switched on alone {(.5,0),(0,.3)} (quick: covering subset in which every option takes every value; thorough: all 512); before every call the galleries are read from the store and usable / collected / votes / weights / contests / positional fallback re-derived independently. Plus a contest family (Euclidean(1.2), min votes 2 and 1): a track with three stored looks, a bystander with one, and two detections arriving together whose looks run over a 35 x 35 grid (thorough 69 x 69) x 14 (second look, bystander look) pairs - competing claims with different vote counts while a pair short of the quorum holds the frame's largest distance. Non-trivial = call with at least one appearance claim.");
+    rep.set_rule("every call history of depth <= D (quick 4 for VisualSort, thorough 4 on the full grid; VisualSort; BatchVisualSort one level shallower on a sub-grid; with own-area thresholds its calls are two-scene batches whose companion scene has different own-area shares, both scenes judged) over 13 detection lists (same look, look-alike, half-way look, swapped appearances, no feature, low quality, small box, mutual occlusion, far-away look-alike, empty) x option grid {Euclidean(.5) / cosine(.9); plus cosine(.2) configurations} x {IoU, Mahalanobis} x min votes {1,2} x minimal track length {1,2} x max observations {2,3} x use/collect quality {(0,.6),(.5,.3)} x minimal area {0,150} x own-area share use/collect {(0,0),(.5,.2)} plus each threshold switched on alone {(.5,0),(0,.3)} (quick: covering subset in which every option takes every value; thorough: all 512); before every call the galleries are read from the store and usable / collected / votes / weights / contests / positional fallback re-derived independently. Plus a contest family (Euclidean(1.2), min votes 2 and 1): a track with three stored looks, a bystander with one, and two detections arriving together whose looks run over a 35 x 35 grid (thorough 69 x 69) x 14 (second look, bystander look) pairs - competing claims with different vote counts while a pair short of the quorum holds the frame's largest distance. Non-trivial = call with at least one appearance claim.");
     rep.assume("decisions within 1e-3 of a threshold or vote weights within 1e-4 of each other are accepted either way (counted as undecided)");
     let grid = option_grid(tier);
     rep.extra("option_points", json!(grid.len()));
@@ -427,9 +427,32 @@ pub fn run(tier: Tier) -> Report {
             let mut st = (0u64, 0u64, 0u64, 0u64, 0u64);
             for h in &hs2[ci * chunk..((ci + 1) * chunk).min(hs2.len())] {
                 let mut trk = Guarded::new(AnyTrk::new(&cfg2));
+                // batch tracker with own-area thresholds: every call is a TWO-scene batch; the companion scene 1
+                // holds two detections that cover each other (own-area shares about 0.2), so that the scenes of
+                // one batch have different shares at equal detection indices; both scenes are judged
+                let two_scene = cfg2.kind.is_batch() && cfg2.vis.own_use + cfg2.vis.own_collect > 0.0;
                 for (k, l) in h.iter().enumerate() {
                     let pre = trk.all_stored(false, cfg2.shards);
-                    let recs = trk.predict(0, &ls2[*l]);
+                    let recs = if two_scene {
+                        let comp = ls2[7].clone();
+                        let mut out = trk.predict_batch(&[(0, ls2[*l].clone()), (1, comp.clone())]);
+                        out.sort_by_key(|x| x.0);
+                        if out.len() != 2 {
+                            viol.push((h.clone(), k, "visual/record-count".into(), format!("{} results for a two-scene batch", out.len())));
+                            break;
+                        }
+                        let r1 = out.pop().unwrap().1;
+                        match judge_call(&cfg2, 1, k + 1, &comp, &r1, &pre) {
+                            Judgement::Bad(key, what) => {
+                                viol.push((h.clone(), k, key, format!("[companion scene 1 of a two-scene batch] {what}")));
+                                break;
+                            }
+                            _ => {}
+                        }
+                        out.pop().unwrap().1
+                    } else {
+                        trk.predict(0, &ls2[*l])
+                    };
                     st.0 += 1;
                     match judge_call(&cfg2, 0, k + 1, &ls2[*l], &recs, &pre) {
                         Judgement::Ok { visual_attachments, contests, positional } => {
